@@ -381,7 +381,9 @@ def history(rng: random.Random, profile: Optional[Profile] = None, asset: str = 
                 fee = Decimal(row["ffee"]) if row["ffee"] else (Decimal(row["cfee"]) * spot if row["cfee"] else Decimal(0))
                 value = base + fee
                 if rng.random() < p.p_inconsistent_fiat:
-                    value = value + Decimal(rng.choice(("0.5", "3", "0.01")))
+                    extra = rng.choice(("0.5", "3", "0.01", "no-fee"))
+                    # "no-fee": the export repeats the fee-less value in the with-fee column although a fee is given (supplied values win)
+                    value = base if extra == "no-fee" else value + Decimal(extra)
                 value = _limit_sig(value, p.max_sig_digits)
                 if value > 0:
                     row["fin_wf"] = dstr(value)
@@ -426,7 +428,9 @@ def history(rng: random.Random, profile: Optional[Profile] = None, asset: str = 
             if ttype != "FEE" and rng.random() < p.p_optional_fiat:
                 value = cout * spot
                 if rng.random() < p.p_inconsistent_fiat:
-                    value = value * Decimal(rng.choice(("1.02", "0.9"))) + Decimal("0.01")
+                    factor = rng.choice(("1.02", "0.9", "gross"))
+                    # "gross": the export puts the value of amount + fee in the fee-less column (supplied values win)
+                    value = (cout + cfee) * spot if factor == "gross" else value * Decimal(factor) + Decimal("0.01")
                 value = _limit_sig(value, p.max_sig_digits)
                 if value > 0:
                     row["fout_nf"] = dstr(value)
